@@ -56,7 +56,15 @@ mod k {
             }
         }
     }
-    pub const N_CTORS: usize = 16;
+    pub const N_CTORS: usize = 18;
+    /// arkworks' twisted-Edwards "random bytes" format: y little-endian with the sign of x in the top bit
+    fn te_bytes(c: &crate::model::Curve, p: &Pt) -> Vec<u8> {
+        let mut y = crate::model::to_le(&p.y, 32);
+        if p.x > ((&c.f.p - b(1)) >> 1usize) {
+            y[31] |= 0x80;
+        }
+        y
+    }
     fn via_r1cs_value(e: El, as_affine_input: bool) -> El {
         use ark_r1cs_std::alloc::AllocVar;
         use ark_r1cs_std::R1CSVar;
@@ -94,6 +102,10 @@ mod k {
             12 => ("AffinePoint from other coset member", Obj::A(from_pt(c, &c.torque(m)).into_affine())),
             13 => ("TryFrom<&[u8]> for Element", Obj::E(El::try_from(&bytes[..]).expect("valid"))),
             14 => ("R1CSVar::value() of ElementVar::new_witness", Obj::E(via_r1cs_value(src.as_el(), false))),
+            // (the crate reads y reduced mod q and ignores the sign flag, so only the member with the smaller x can
+            // come out; a refusal falls back to a conversion)
+            16 => match Af::from_random_bytes(&crate::model::to_le(&m.y, 32)) { Some(a) => ("AffineRepr::from_random_bytes(y)", Obj::A(if denotes(c, &El::from(a), m).is_ok() { a } else { -a })), None => ("into_affine (from_random_bytes refused)", Obj::A(src.as_el().into_affine())) },
+            17 => match Af::from_random_bytes(&crate::model::to_le(&c.torque(m).y, 32)) { Some(a) => ("AffineRepr::from_random_bytes(y of the other member)", Obj::A(if denotes(c, &El::from(a), m).is_ok() { a } else { -a })), None => ("into_affine (from_random_bytes refused)", Obj::A(src.as_el().into_affine())) },
             _ => ("R1CSVar::value() of ElementVar::new_input(AffinePoint)", Obj::E(via_r1cs_value(src.as_el(), true))),
         }
     }
@@ -188,10 +200,12 @@ mod k {
         }
         let mut h = std::collections::hash_map::DefaultHasher::new();
         let mut r = ByteRecorder::default();
+        let mut cr = crate::c08::arkp::CallRecorder::default();
         match o {
-            Obj::E(e) => { e.hash(&mut h); e.hash(&mut r); }
-            Obj::A(a) => { a.hash(&mut h); a.hash(&mut r); }
+            Obj::E(e) => { e.hash(&mut h); e.hash(&mut r); e.hash(&mut cr); }
+            Obj::A(a) => { a.hash(&mut h); a.hash(&mut r); a.hash(&mut cr); }
         }
+        r.0.extend_from_slice(&cr.0);
         (h.finish(), r.0)
     }
     /// `==` in both directions; objects of different kinds are compared after converting either way
